@@ -39,7 +39,7 @@ meta("C13",
      rule="random lists of 1-4 trains with unsorted/repeated/out-of-range times and different edges (k/8 grid) for reconcile itself; random lists of 2-5 valid trains made messy (shuffled, repeats) for 23 entry points x keyword settings; distinct by canonical encoding",
      assumptions=[A_FLOAT, A_CY, A_RQ, "eps = 1e-6 is the rational 1/10^6 in the model and the nearest double in the code"])
 meta("C14",
-     proved="pairs generated from an index list = pairs over positions looked up through the list; for every admissible index list (any subset/order/repeats) each generic multivariate driver (distance, profile with divide-and-conquer, matrix, SPIKE-Sync, order, directionality values) on (list, indices) equals the driver on the selected sub-list; list of two = bivariate value",
+     proved="pairs generated from an index list = pairs over positions looked up through the list; for every admissible index list (any subset/order/repeats) each generic multivariate driver (distance, profile with divide-and-conquer, matrix, SPIKE-Sync, order, directionality values) on (list, indices) equals the driver on the selected sub-list; list of two = two-train result for every measure (scalars and profiles); KNOWN FINDING F10 as theorem C14_auto_with_indices_refuted (the automatic threshold of a multivariate call ignores `indices`)",
      tested_only="argument-count dispatch of the Python entry points (two trains / list / varargs), forwarding of interval/max_tau/MRTS/RI through every form: oracle on the implementation (13 functions, random subsets, both backends); MRTS='auto' with a proper subset is known finding F10",
      rule="random lists of 2-5 trains (k/16 grid, shared/edge spikes, repeated trains), random index subsets of size >= 2 in random order, random MRTS/max_tau/RI/interval; distinct by canonical encoding",
      assumptions=[A_FLOAT, A_CY, A_RQ])
@@ -71,7 +71,7 @@ meta("C05",
      tested_only="MRTS='auto' plumbing of the scalar vs the profile route and index selections through the public API (oracle on the implementation, both backends); multivariate order value vs order profile (oracle; the pooled sums are C04's synfire theorem)",
      assumptions=[A_FLOAT, A_CY, A_RQ])
 meta("C08",
-     proved="shift and scale (with MRTS, max_tau scaled) transform only the time axis of the ISI, SPIKE, SPIKE-Sync, order profiles and leave directionality values / filter indicators unchanged; time reversal mirrors the ISI, SPIKE (limits exchanged) and SPIKE-Sync profiles, mirrors and negates order/directionality (spec level), integrals unchanged",
+     proved="shift and scale (with MRTS, max_tau scaled) transform only the time axis of the ISI, SPIKE, SPIKE-Sync, order profiles and leave directionality values / filter indicators unchanged; time reversal mirrors the ISI, SPIKE (limits exchanged) and SPIKE-Sync profiles, mirrors and negates order/directionality (spec level), integrals unchanged; KNOWN FINDING F13 as theorem (order of all-empty input is +1 in both orientations)",
      tested_only="the same relations through the public API on the implementation (oracle, both backends); order value of all-empty input is known finding F13",
      rule="exhaustive <=3-spike pairs on the 9-point grid (sampled 2500) + random pairs, random dyadic shift c and scale k (ties preserved), mirror about the midpoint; nine API results per pair; distinct by canonical encoding",
      assumptions=[A_FLOAT, A_CY, A_RQ])
